@@ -43,4 +43,6 @@ def run(ctx, rep):
     rep.run(RM.rule_every_element_kind_is_wrapped_on_every_path, ctx, rep, "T14")
     # T15: the name tables of the generator are collections (a one-element tuple without its comma is a string: `in` turns into a substring test)
     rep.run(RM.rule_membership_tables_are_collections, ctx, rep, "T15")
+    # T16: every group of free-function overloads reaches its file (no name filter in front of the append)
+    rep.run(RM.rule_every_function_group_gets_its_file, ctx, rep, "T16")
     rep.run(RF.rule_locals_defined, ctx, rep, "U1", packages=("gtwrap/matlab_wrapper",), min_functions=3)
